@@ -68,8 +68,11 @@ chk('C20', MC,
     'CBMC on the real runtime/dyn_array.c: one operation of every accessor/mutator (all element kinds incl. structs) from ANY valid array (symbolic length 0..capacity incl. the full array that must grow, all contents, all indices/values): memory-safe incl. size-arithmetic overflow, invariant preserved, result equals the abstract list operation; the same inductive step for the string-builder helpers that nanoc emits into every generated C file (text taken from the real nanoc output).',
     'Inductive single step (covers histories of any length given the invariant). gc.c (no verdict), nl_string.c formatting and generated programs are not decided.',
     'CBMC bounded model checking, inductive step over the dyn_array representation invariant', 'DESIGN.md 4/C20')
+chk('C03', MC,
+    'Evaluator kernels only: CBMC on the real eval.c shows that eval_prefix_op on literal operands (13 binary + 2 unary operators + bool equality, all int64 pairs / truth values) and eval_call for 13 builtins (char_at, is_digit/alpha/alnum/whitespace/upper/lower, digit_value, char_to_lower/upper, abs, min, max; all int64 arguments, strings of arbitrary bytes) return exactly what the native backend computes: C operators with 64-bit wrap and, for builtins, the helper text the real nanoc wrote into generated C, linked as the reference. Counterexamples are replayed on the real nanoc (a shadow test asserting the native value must pass).',
+    'Single operators and single builtin calls on literal arguments only; statements, user calls, scoping, string construction, arrays, hashmaps and printing of the evaluator are NOT decided; the VM side of the three-way agreement is covered against native by C01/C02.',
+    'CBMC differential kernels: real evaluator vs. real generated-C helpers, symbolic arguments; * / % by z3 + cvc5 on the exported formula', 'DESIGN.md 10.9')
 NA = {
- 'C03': 'eval.c could not be symbolically executed at useful scale: a one-assert AST through the real eval_statement gave no verdict in 600 s (attempts/shadow_gate.c) and eval_prefix_op on two literal operands gave no verdict in 900 s for any of 16 operators (attempts/eval_ops.c, attempts/c03_operator_kernel.py); only the array builtins of the evaluator (leaf functions) are covered, under C08.',
  'C07': 'parser.c under CBMC: parse_expression on the fully CONCRETE token stream `a + b` (and its prefix spelling) gave no verdict in 300 s (attempts/parser_eq.c: parse_primary explores the type/generic parsers at every identifier); parse_program on 3 symbolic tokens did not finish symbolic execution in 5 min (design probe). The operator semantics of infix spellings on both backends are covered by members of the C01 family (infix_chain, mod_infix, cmp_chain_infix).',
  'C09': 'tokenize() on a single symbolic byte: symbolic execution finishes only with the main loop cut at 3 iterations and the SAT query then gave no verdict in 300 s (value sets of the token array explode; attempts/lexer_total.c); parser/type checker totality not attempted (see C07).',
  'C17': 'The quantifier is over thread interleavings of whole VM sessions and data races: CBMC cannot carry two interpreter sessions; no bounded encoding within reach. The sequential server-side session path (framing, flushing of an unterminated last line before the exit frame, verification before execution, cleanup) is decided under C18 and catches the seeded change C17/b; a client-side reassembly harness (attempts/vmd_client_rx.c) gave no verdict in 150 s as soon as one output frame is present.',
